@@ -45,6 +45,7 @@ import (
 	"io"
 	"os"
 	"reflect"
+	"strings"
 	"sync"
 	"time"
 
@@ -345,6 +346,21 @@ func unstable(fp string, ep entryPoint, dl delivery, clause, sig, val string, b 
 		map[string]interface{}{"entry": ep.name, "signature": clip(sig, 400), "value": clip(val, 400), "refmodel_hex": hexs(b), "refmodel_len": len(b), "delivery": dl.String(), "clause": clause})
 }
 
+// outerKind names the outermost constructor of a signature shape.
+func outerKind(shape string) string {
+	switch {
+	case strings.HasPrefix(shape, "(") && strings.Contains(shape[strings.LastIndex(shape, ")"):], "<"):
+		return "struct"
+	case strings.HasPrefix(shape, "("):
+		return "tuple"
+	case strings.HasPrefix(shape, "["):
+		return "list"
+	case strings.HasPrefix(shape, "{"):
+		return "map"
+	}
+	return "atom"
+}
+
 func main() {
 	run = enum.NewRun("C03", 75*time.Second, 12*time.Minute)
 	depth := 2
@@ -401,7 +417,7 @@ func main() {
 		}
 		assumptions := []string{
 			"the documented layout is the reference model written from doc/about-qimessaging.md; 8/16-bit integers little-endian fixed width; booleans one byte; 'v' no byte",
-			"the Go type of a signature is the one generated code uses: 'm' = value.Value, 'o' = object.ObjectReference, tuples struct{P0..}, structs with title-cased field names; for signatures without m/o it is compared with signature.Parse(sig).Type() (reported, not decided)",
+			"the Go type of a signature is the one generated code uses: 'm' = value.Value, 'o' = object.ObjectReference, tuples struct{P0..}, structs with title-cased field names; for signatures without m/o it is compared with signature.Parse(sig).Type() (a difference is a violation: the reflection codec works from that type)",
 			"map keys are integers, booleans and strings (no float keys); maps have at most 2 entries except in the boundary family (4095 and 4096 entries), the encoder may emit them in any order",
 			"zero-width types (void, the empty tuple, a structure without member, tuples and structures of those) serialize to no byte, so a list of n of them is its 32-bit count alone; a map keyed by a zero-width type has at most one entry (the key type has a single value), wire counts above 1 for such maps are not judged; counts of zero-width elements stay <= 8 (and 4095/4096 in the boundary family): what the codecs do with huge counts over elements that consume no input belongs to C07",
 			"decoders are given three reader types/extents: the fragmenting reader with a sentinel after the encoding, the fragmenting reader with a separate EOF, and a *bytes.Buffer holding exactly the encoding (bytes.NewBuffer(payload), what generated code passes); other reader types (*bytes.Reader, bufio.Reader) are not enumerated",
@@ -457,6 +473,26 @@ func main() {
 					if len(mismatches) < 5 {
 						mismatches = append(mismatches, fmt.Sprintf("%s: Type()=%v, generated-code type=%v", t, rt, gobridge.GoType(t)))
 					}
+					// the reflection codec works from Go types: the Go type the
+					// signature package hands out for a signature (what proxies
+					// decode replies into) must be the one whose encoding is the
+					// documented layout of that signature
+					sig, want := t.String(), gobridge.GoType(t)
+					run.Violation("codec/signature.Type()/go-type-differs/"+outerKind(t.Shape()), fmt.Sprintf("%06d|%s", len(sig), sig),
+						fmt.Sprintf("signature.Parse(%q).Type() = %v, but the documented layout of %q is that of %v (one member per signature member, same kinds)", sig, rt, sig, want),
+						map[string]interface{}{"signature": sig, "Type()": fmt.Sprint(rt), "expected": fmt.Sprint(want), "note": "the enumeration asks for the types of all signatures of the universe in one process, in construction order"},
+						func() bool {
+							pt, err := repoParse(sig)
+							if err != nil {
+								return false
+							}
+							var got reflect.Type
+							func() {
+								defer func() { recover() }()
+								got = pt.Type()
+							}()
+							return got != want
+						})
 				}
 				mu.Unlock()
 			}
